@@ -167,9 +167,13 @@ def differential(ctx, build, inputs, cvar, cname, obs, what):
     cands = [('1', Fraction(1)), ('2', Fraction(2)), ('1/2', Fraction(1, 2)), ('solver-chosen value', special)]
     for cname_, cv in cands:
         from ..symx import Q
+        # the direct numeric build gets the kind of number a user would pass: int when integral, float when dyadic, exact rational otherwise
+        if cv.denominator == 1: cnum = int(cv)
+        elif (cv.denominator & (cv.denominator - 1)) == 0 and abs(cv) < 2 ** 30: cnum = float(cv)
+        else: cnum = Q(cv)
         with warnings.catch_warnings():
             warnings.simplefilter('ignore')
-            HD = build(rep, Q(cv))
+            HD = build(rep, cnum)
             HSs = HS.subs({lam: sympy.Rational(cv.numerator, cv.denominator)})
         ok, why = models_equal_exact(HSs, HD)
         obs.append(Ob('%s: subs(lam -> %s) equals the model built with the number' % (what, cname_), ok, info={'why': why, 'value': str(cv), 'rep': {k: str(v) for k, v in rep.items()}},
@@ -180,6 +184,23 @@ def differential(ctx, build, inputs, cvar, cname, obs, what):
             obs.append(Ob('%s: subs(lam -> %s) has the same recorded constraints' % (what, cname_), ok, info={'why': why}, sig='%s: subs constraints' % what))
     obs.append(Ob('%s: subs leaves the symbolic model unchanged' % what, {k: sympy.sympify(v) for k, v in HS.items()} == snap_S and set(HS) == set(snap_S),
                   sig='%s: subs mutates' % what))
+    if hasattr(HS, 'constraints'):
+        # history: the substituted model gets a further constraint; the symbolic original must not see it (and vice versa)
+        cons0 = {k: [dict(x) for x in v] for k, v in HS.constraints.items()}
+        with warnings.catch_warnings():
+            warnings.simplefilter('ignore')
+            G = HS.subs({lam: 2})
+            G.add_constraint_eq_zero({('zz1',): 1, ('zz2',): -1}, lam=0)
+            G.add_constraint_lt_zero({('zz1',): 1, (): -1}, lam=0)
+        cons1 = {k: [dict(x) for x in v] for k, v in HS.constraints.items()}
+        obs.append(Ob('%s: constraints added to the substituted model do not appear in the symbolic original' % what, cons0 == cons1,
+                      info={'before': {k: len(v) for k, v in cons0.items()}, 'after': {k: len(v) for k, v in cons1.items()}}, sig='%s: subs result shares constraints' % what))
+        G2 = HS.subs({lam: 3})
+        with warnings.catch_warnings():
+            warnings.simplefilter('ignore')
+            HS.add_constraint_ne_zero({('zz3',): 1}, lam=0)
+        obs.append(Ob('%s: constraints added to the symbolic original afterwards do not appear in an earlier subs result' % what,
+                      'ne' not in G2.constraints or len(G2.constraints['ne']) == len(cons0.get('ne', [])), sig='%s: subs result shares constraints' % what))
 
 
 def make_cmp(ctx, rel, B, log, spin, n=2):
@@ -263,6 +284,14 @@ def make_objective(ctx, spin, derive='scaled'):
         H = T({('a',): vals['f0'], ('a', 'b'): vals['f1'], (): vals['f2']})
         H.add_constraint_le_zero({('a',): 1, ('b',): 1, ('c',): 1, (): -2}, lam=weight)
         H.add_constraint_ne_zero({('a',): 1, ('c',): -1}, lam=2 * weight)
+        if derive == 'weight-times-model':
+            G = T({('a',): vals['f0'], ('a', 'b'): vals['f1'], (): vals['f2']})
+            G.add_constraint_le_zero({('a',): 1, ('b',): 1, ('c',): 1, (): -2}, lam=1)
+            return weight * G + {('c',): 1}
+        if derive == 'model-times-weight':
+            G = T({('a',): vals['f0'], ('a', 'b'): vals['f1'], (): vals['f2']})
+            G.add_constraint_ne_zero({('a',): 1, ('c',): -1}, lam=2)
+            return G * weight
         if derive == 'copy': return H.copy()
         if derive == 'ctor': return T(H)
         if derive == 'plus-disjoint': return H + {('zz',): 1}
@@ -291,7 +320,7 @@ def jobs(tier, seed):
         for rel in ['eq', 'ne', 'lt', 'le', 'gt', 'ge']:
             for log in ([True] if rel == 'eq' else [True, False]):
                 add('%s/%s/log=%d/B%d' % ('PCSO' if spin else 'PCBO', rel, log, B), 'make_cmp', dict(rel=rel, B=B, log=log, spin=spin))
-        for derive in ['scaled', 'copy', 'ctor', 'plus-disjoint', 'minus-number-of-fresh-offset', 'refresh']:
+        for derive in ['scaled', 'copy', 'ctor', 'plus-disjoint', 'minus-number-of-fresh-offset', 'refresh', 'weight-times-model', 'model-times-weight']:
             add('objective/%s/%s' % ('PCSO' if spin else 'PCBO', derive), 'make_objective', dict(spin=spin, derive=derive))
     from .c06 import GATES, MIN_ARITY, MIN_ARITY_EQ
     for g in GATES:
